@@ -157,7 +157,7 @@ def run(ck):
         ("triples", "Gen_triples_thorough.cfg" if thorough else "Gen_triples_quick.cfg", 1, 25 if thorough else 1, None),
     ]
     if thorough:
-        gens.append(("deep", "Gen_deep.cfg", 2, 1, 12000))
+        gens.append(("deep", "Gen_deep.cfg", 2, 1, 80))
 
     def pipeline(g):
         label, cfg, variants, sample, sim = g
@@ -232,7 +232,7 @@ def run(ck):
     ck.cov["exhaustive"] = True
     ck.cov["constants"] = {"atoms": len(listed), "pairs": "all atoms x all atoms x {nothing where the table allows, space, newline, comment}",
                            "triples": ("all atoms" if thorough else "41 look-ahead sensitive atoms") + ", juxtaposed wherever the table and Merges allow",
-                           "separators": "41 atoms squared x every separator item", "deep": "12000 random sequences of 10 atoms" if thorough else "-",
+                           "separators": "41 atoms squared x every separator item", "deep": "80 random sequences of 9 atoms, each with every admissible (separator, 10th atom) extension" if thorough else "-",
                            "class_strings_max_len": 5 if thorough else 4, "class_alphabet": 15}
     ck.cov["rule"] = ("token clause: every sequence TLC derived (pairs/triples exhaustive for the stated atom sets, thorough adds sampled sequences of 10 "
                       "atoms), spelled with seeded representatives per character class (variant 1 writes every newline as CR LF); non-trivial = case "
